@@ -2277,7 +2277,11 @@ def run_c16(t):
         sim, originals, any_ctx = run_simulator(t)
     except Exception as e:
         import traceback
-        return True, {"skipped": "simulator raised: %r" % e}
+        # "every bandit gets exactly one prediction per test row": a run() that raises on data the public API handles accounts for no row at all
+        if api_replay_completes(t):
+            return False, {"why": "the Simulator raised %s: %s where fit + predict through the public API complete" % (type(e).__name__, str(e)[:150]),
+                           "batch_size": t["batch_size"], "forced_chunk_size": t.get("force_chunk"), "trace": traceback.format_exc()[-600:]}
+        return True, {"skipped": "simulator raised: %r (so does the public API)" % e}
     n = len(t["ds"]); ds = np.asarray(t["ds"]); rs = np.asarray(t["rs"], dtype=float)
     ti = [int(i) for i in sim.test_indices]
     if len(set(ti)) != len(ti) or any(i < 0 or i >= n for i in ti):
